@@ -13,3 +13,7 @@ func RWLockFunc(m *sync.RWMutex, site int32) func()     { return func() { RWLock
 func RWUnlockFunc(m *sync.RWMutex, site int32) func()   { return func() { RWUnlock(m) } }
 func RWRLockFunc(m *sync.RWMutex, site int32) func()    { return func() { RWRLock(m, site) } }
 func RWRUnlockFunc(m *sync.RWMutex, site int32) func()  { return func() { RWRUnlock(m) } }
+
+// ParkHook, when set on the active simulation, is called by a goroutine just before it parks waiting
+// for a condition variable (kind "cond"): harness monitors use it for blocking-related liveness clauses.
+var ParkHook func(name string, site int32, kind string)
